@@ -78,8 +78,11 @@ C10_TYPES(X)
 
 using i128 = __int128;
 
-enum Fn { ToChars, FromIntT, FromIntN, ToString, RoundTrip };
-char const* const fn_names[] = {"to_chars", "from_integer_term", "from_integer_noterm", "to_string", "roundtrip"};
+// Every CALL SHAPE is a separate code path (an overload, a defaulted parameter): the *_nobase entries call
+// to_chars(first, last, v) / from_chars(first, last, v) without a base argument, from_integer_deduced calls
+// from_integer(v, str, len, base) with every template argument deduced/defaulted (as the unit tests do).
+enum Fn { ToChars, FromIntT, FromIntN, ToString, RoundTrip, ToCharsNoBase, FromIntD, RoundTripNoBase, kNumFn };
+char const* const fn_names[] = {"to_chars", "from_integer_term", "from_integer_noterm", "to_string", "roundtrip", "to_chars_nobase", "from_integer_deduced", "roundtrip_nobase"};
 enum Mode { Heap = 0, Canary = 1, Null = 2 }; // Null: the valid empty range [nullptr, nullptr) (a default-constructed span<char>)
 
 struct Case {
@@ -179,7 +182,7 @@ Buffers g_buf;
 
 // local statistics, flushed once (vf::label costs a map lookup per call)
 struct Local {
-    std::uint64_t ev[5]{};
+    std::uint64_t ev[kNumFn]{};
     std::uint64_t nt{0};
     std::uint64_t calls{0}, exact{0}, tooSmall{0}, zeroLen{0}, negative{0}, base10{0}, negNon10{0}, roomy{0}, nullRange{0};
     std::uint64_t tsCalls{0}, tsExact{0}, tsNeg{0};
@@ -188,7 +191,7 @@ Local g_loc;
 
 void flush_stats()
 {
-    for (int i = 0; i < 5; ++i) {
+    for (int i = 0; i < kNumFn; ++i) {
         if (g_loc.ev[i] != 0) { vf::eval(fn_names[i], g_loc.ev[i]); }
     }
     vf::nontrivial_count(g_loc.nt);
@@ -245,53 +248,55 @@ void account(T v, int base, int len, int n)
 
 // ---------------------------------------------------------------------------------------------- to_chars, one call
 template <typename T>
-void one_to_chars(T v, int base, int len, int mode, char const* ref, int n)
+void one_to_chars(T v, int base, int len, int mode, char const* ref, int n, bool nobase = false)
 {
-    Case k = mk(ToChars, v, base, len, mode);
-    vf::Flight<Case> fl("to_chars", k);
+    int const fn      = nobase ? ToCharsNoBase : ToChars;
+    char const* fname = fn_names[fn];
+    Case k            = mk(fn, v, base, len, mode);
+    vf::Flight<Case> fl(fname, k);
     char* b      = g_buf.get(len, mode);
-    auto const r = etl::to_chars(b, b + len, v, base);
-    ++g_loc.ev[ToChars];
+    auto const r = nobase ? etl::to_chars(b, b + len, v) : etl::to_chars(b, b + len, v, base);
+    ++g_loc.ev[fn];
     account(v, base, len, n);
     g_loc.nullRange += (mode == Null);
     int dmg = g_buf.damaged(len, mode);
     if (dmg != INT32_MIN) {
-        FAIL("to_chars", k, "to_chars<%s>(%s, base %d) into a %d-byte buffer changed the byte at offset %d (outside [first,last)); std needs %d characters", tname<T>(), vstr(v).c_str(), base, len, dmg, n);
+        FAIL(fname, k, "%s<%s>(%s, base %d) into a %d-byte buffer changed the byte at offset %d (outside [first,last)); std needs %d characters", fname, tname<T>(), vstr(v).c_str(), base, len, dmg, n);
     }
     if (n <= len) {
         bool ok = r.ec == etl::errc{} && r.ptr == b + n && std::memcmp(b, ref, static_cast<std::size_t>(n)) == 0;
         if (!ok) {
             if (r.ec != etl::errc{}) {
-                FAIL("to_chars", k, "to_chars<%s>(%s, base %d) into a %d-byte buffer: etl reports ec=%d, std writes %s (%d characters fit)", tname<T>(), vstr(v).c_str(), base, len, static_cast<int>(r.ec),
+                FAIL(fname, k, "%s<%s>(%s, base %d) into a %d-byte buffer: etl reports ec=%d, std writes %s (%d characters fit)", fname, tname<T>(), vstr(v).c_str(), base, len, static_cast<int>(r.ec),
                     vis(ref, static_cast<std::size_t>(n)).c_str(), n);
             }
             auto en = static_cast<long>(r.ptr - b);
             if (en < 0 || en > len) {
-                FAIL("to_chars", k, "to_chars<%s>(%s, base %d) into a %d-byte buffer: etl ptr is outside the buffer (offset %ld), std writes %s", tname<T>(), vstr(v).c_str(), base, len, en, vis(ref, static_cast<std::size_t>(n)).c_str());
+                FAIL(fname, k, "%s<%s>(%s, base %d) into a %d-byte buffer: etl ptr is outside the buffer (offset %ld), std writes %s", fname, tname<T>(), vstr(v).c_str(), base, len, en, vis(ref, static_cast<std::size_t>(n)).c_str());
             }
-            FAIL("to_chars", k, "to_chars<%s>(%s, base %d) into a %d-byte buffer: etl writes %s, std writes %s", tname<T>(), vstr(v).c_str(), base, len, vis(b, static_cast<std::size_t>(en)).c_str(),
+            FAIL(fname, k, "%s<%s>(%s, base %d) into a %d-byte buffer: etl writes %s, std writes %s", fname, tname<T>(), vstr(v).c_str(), base, len, vis(b, static_cast<std::size_t>(en)).c_str(),
                 vis(ref, static_cast<std::size_t>(n)).c_str());
         }
     } else {
         if (r.ec != etl::errc::value_too_large) {
-            FAIL("to_chars", k, "to_chars<%s>(%s, base %d) into a %d-byte buffer: std needs %d characters and reports value_too_large, etl reports ec=%d", tname<T>(), vstr(v).c_str(), base, len, n, static_cast<int>(r.ec));
+            FAIL(fname, k, "%s<%s>(%s, base %d) into a %d-byte buffer: std needs %d characters and reports value_too_large, etl reports ec=%d", fname, tname<T>(), vstr(v).c_str(), base, len, n, static_cast<int>(r.ec));
         }
         if (r.ptr != b + len) {
-            FAIL("to_chars", k, "to_chars<%s>(%s, base %d) into a %d-byte buffer: value_too_large but ptr != last", tname<T>(), vstr(v).c_str(), base, len);
+            FAIL(fname, k, "%s<%s>(%s, base %d) into a %d-byte buffer: value_too_large but ptr != last", fname, tname<T>(), vstr(v).c_str(), base, len);
         }
     }
 }
 
 // ---------------------------------------------------------------------------------------------- from_integer, one call
 template <typename T, bool Term>
-void one_from_integer(T v, int base, int len, int mode, char const* ref, int n)
+void one_from_integer(T v, int base, int len, int mode, char const* ref, int n, bool deduced = false)
 {
-    constexpr int fn = Term ? FromIntT : FromIntN;
+    int const fn = deduced ? FromIntD : (Term ? FromIntT : FromIntN); // deduced: only with Term (the default option)
     Case k           = mk(fn, v, base, len, mode);
     vf::Flight<Case> fl(fn_names[fn], k);
     char* b             = g_buf.get(len, mode);
     constexpr auto opts = etl::strings::from_integer_options{.terminate_with_null = Term};
-    auto const r        = etl::strings::from_integer<T, opts>(v, b, static_cast<std::size_t>(len), base);
+    auto const r        = deduced ? etl::strings::from_integer(v, b, static_cast<std::size_t>(len), base) : etl::strings::from_integer<T, opts>(v, b, static_cast<std::size_t>(len), base);
     ++g_loc.ev[fn];
     account(v, base, len, n + (Term ? 1 : 0));
     int dmg = g_buf.damaged(len, mode);
@@ -319,25 +324,46 @@ void one_from_integer(T v, int base, int len, int mode, char const* ref, int n)
 
 // ---------------------------------------------------------------------------------------------- round trip
 template <typename T>
-void one_roundtrip(T v, int base, char const* ref, int n)
+void one_roundtrip(T v, int base, char const* ref, int n, bool nobase = false)
 {
-    Case k = mk(RoundTrip, v, base, n, Heap);
-    vf::Flight<Case> fl("roundtrip", k);
+    int const fn = nobase ? RoundTripNoBase : RoundTrip;
+    Case k       = mk(fn, v, base, n, Heap);
+    vf::Flight<Case> fl(fn_names[fn], k);
     char* b      = g_buf.get(n, Heap);
-    auto const r = etl::to_chars(b, b + n, v, base);
-    ++g_loc.ev[RoundTrip];
+    auto const r = nobase ? etl::to_chars(b, b + n, v) : etl::to_chars(b, b + n, v, base);
+    ++g_loc.ev[fn];
     if (r.ec != etl::errc{} || r.ptr != b + n) {
         // reported by the to_chars sub-property as well; here it means the round trip cannot even start
-        FAIL("roundtrip", k, "round trip <%s>(%s, base %d): to_chars into the exact-fit %d-byte buffer does not produce the %d characters of %s (ec=%d, %ld characters written)", tname<T>(), vstr(v).c_str(), base, n, n,
+        FAIL(fn_names[fn], k, "round trip%s <%s>(%s, base %d): to_chars into the exact-fit %d-byte buffer does not produce the %d characters of %s (ec=%d, %ld characters written)", nobase ? " without base argument" : "", tname<T>(), vstr(v).c_str(), base, n, n,
             vis(ref, static_cast<std::size_t>(n)).c_str(), static_cast<int>(r.ec), r.ec == etl::errc{} ? static_cast<long>(r.ptr - b) : -1L);
     }
     T back         = static_cast<T>(v == T(0) ? 1 : 0); // differs from v
-    auto const p   = etl::from_chars(static_cast<char const*>(b), static_cast<char const*>(b + n), back, base);
+    auto const p   = nobase ? etl::from_chars(static_cast<char const*>(b), static_cast<char const*>(b + n), back) : etl::from_chars(static_cast<char const*>(b), static_cast<char const*>(b + n), back, base);
     bool const okk = p.ec == etl::errc{} && p.ptr == b + n && back == v;
     if (!okk) {
-        FAIL("roundtrip", k, "round trip <%s>(%s, base %d): to_chars gives %s, from_chars of that gives value %s, ec=%d, consumed %ld of %d (std::to_chars gives %s)", tname<T>(), vstr(v).c_str(), base,
+        FAIL(fn_names[fn], k, "round trip%s <%s>(%s, base %d): to_chars gives %s, from_chars of that gives value %s, ec=%d, consumed %ld of %d (std::to_chars gives %s)", nobase ? " without base argument" : "", tname<T>(), vstr(v).c_str(), base,
             vis(b, static_cast<std::size_t>(n)).c_str(), vstr(back).c_str(), static_cast<int>(p.ec), static_cast<long>(p.ptr - b), n, vis(ref, static_cast<std::size_t>(n)).c_str());
     }
+}
+
+// the call shapes that leave the base (and the from_integer template arguments) to their defaults: same value, same
+// buffer-length ladder (complete 0..n+2, or n-1..n+1 for the structured values), heap / canary / null buffers; the
+// reference is the std::to_chars call of the same shape
+template <typename T>
+void point_default_shapes(T v, bool full)
+{
+    char ref[80];
+    auto const rr = std::to_chars(ref, ref + 80, v);
+    int const n   = static_cast<int>(rr.ptr - ref);
+    for (int mode = Heap; mode <= Canary; ++mode) {
+        for (int len = (full ? 0 : n - 1); len <= (full ? n + 2 : n + 1); ++len) {
+            one_to_chars(v, 10, len, mode, ref, n, true);
+            if (full || mode == Canary) { one_from_integer<T, true>(v, 10, len, mode, ref, n, true); }
+        }
+    }
+    one_from_integer<T, true>(v, 10, n + 1, Canary, ref, n, true);
+    one_to_chars(v, 10, 0, Null, ref, n, true);
+    one_roundtrip(v, 10, ref, n, true);
 }
 
 // every buffer length 0..n+2, both buffer kinds, to_chars + from_integer (both options) + round trip
@@ -366,6 +392,7 @@ void point(T v, int base, bool withFromInteger)
         for (int len = (n > 0 ? n - 1 : 0); len <= n + 1; ++len) { one_from_integer<T, false>(v, base, len, Canary, ref, n); }
     }
     one_roundtrip(v, base, ref, n);
+    if (base == 10) { point_default_shapes(v, true); }
 }
 
 // ---------------------------------------------------------------------------------------------- value sets
@@ -511,6 +538,7 @@ void point_light(T v, int base)
     one_from_integer<T, true>(v, base, n, Canary, ref, n);
     one_to_chars(v, base, 0, Null, ref, n);
     one_roundtrip(v, base, ref, n);
+    if (base == 10) { point_default_shapes(v, false); }
 }
 
 std::vector<int> bases16(bool thorough)
@@ -712,6 +740,9 @@ void replay_one(int fn, T v, int base, int len, int mode)
     case FromIntT: one_from_integer<T, true>(v, base, len, mode, ref, n); break;
     case FromIntN: one_from_integer<T, false>(v, base, len, mode, ref, n); break;
     case RoundTrip: one_roundtrip(v, base, ref, n); break;
+    case ToCharsNoBase: one_to_chars(v, 10, len, mode, ref, n, true); break;
+    case FromIntD: one_from_integer<T, true>(v, base, len, mode, ref, n, true); break;
+    case RoundTripNoBase: one_roundtrip(v, 10, ref, n, true); break;
     case ToString:
         if constexpr (std::is_same_v<T, int> || std::is_same_v<T, unsigned> || std::is_same_v<T, long> || std::is_same_v<T, unsigned long> || std::is_same_v<T, long long> || std::is_same_v<T, unsigned long long>) {
             to_string_value(v, len);
@@ -729,7 +760,7 @@ std::string vf_replay(std::string const& sub, std::string const& cs)
     int base = 10, len = 0;
     if (std::sscanf(cs.c_str(), "%39s %15s %47s %d %d %15s", fn, ty, val, &base, &len, mode) != 6) { return "unparsable case string: " + cs; }
     int f = -1;
-    for (int i = 0; i < 5; ++i) {
+    for (int i = 0; i < kNumFn; ++i) {
         if (std::string(fn) == fn_names[i]) { f = i; }
     }
     if (f < 0 || base < 2 || base > 36 || len < 0 || len > kMaxLen) { return "unparsable case string: " + cs; }
